@@ -28,14 +28,21 @@ def run(prog: Program) -> Results:
     res = Results("C17")
     cg = CallGraph(prog)
     pf = prog.func("parse_file")
-    fi = prog.func("Import._follow_import")
+    # the step that follows the import: `_follow_import`, or whichever Import method calls parse_file when it was folded away
+    fi = prog.funcs.get("Import._follow_import")
+    if fi is None:
+        cands = [m for m in prog.classes["Import"].methods.values()
+                 if any(isinstance(c, ast.Call) and callee(c) == "parse_file" for c in walk_no_nested(m.node))] if "Import" in prog.classes else []
+        if len(cands) != 1:
+            raise AnalysisError("anchor function vanished: Import._follow_import (and no single Import method calls parse_file)")
+        fi = cands[0]
     gi = prog.func("Import.__getitem__")
     # the argument unwrapper is a private step of _follow_import: under another name (or inlined) its obligations are asked
     # of whatever Import methods _follow_import reaches
     ra = prog.funcs.get("Import._resolve_argument")
     if ra is None:
-        inner = [prog.funcs[k] for k in sorted(cg.reachable(["Import._follow_import"], stop={"parse_file", "parse"}))
-                 if prog.funcs[k].cls == "Import" and k != "Import._follow_import"]
+        inner = [prog.funcs[k] for k in sorted(cg.reachable([fi.key], stop={"parse_file", "parse"}))
+                 if prog.funcs[k].cls == "Import" and k != fi.key]
         ra = inner[0] if len(inner) == 1 else fi
     rp = prog.func("NixPath.resolved_path")
     fc = prog.func("NixPath.from_cst")
@@ -330,6 +337,7 @@ def run(prog: Program) -> Results:
     rets = [n for n in ast.walk(gi.node) if isinstance(n, ast.Return)]
     ok = len(rets) == 1 and isinstance(rets[0].value, ast.Subscript) and (
         (isinstance(rets[0].value.value, ast.Call) and dotted(rets[0].value.value.func) == "self._follow_import") or
+        (fi is gi and isinstance(rets[0].value.value, ast.Call) and callee(rets[0].value.value) == "parse_file") or
         (isinstance(rets[0].value.value, ast.Name) and all(
             isinstance(d, ast.Assign) and isinstance(d.value, ast.Call) and dotted(d.value.func) == "self._follow_import"
             for d in assignments_to(gi.node, rets[0].value.value.id)) and bool(assignments_to(gi.node, rets[0].value.value.id))))
@@ -381,7 +389,7 @@ def run(prog: Program) -> Results:
                   "reaches the test unchanged and raises TypeError", floor=1)
     RESOLUTION = {"_resolve_identifier", "set_resolution_context", "attach_resolution_context", "scopes_for_owner", "Identifier.value",
                   "get_resolution_context", "_get_context", "function_call_scope"}
-    for root in dict.fromkeys((ra.key, "Import._follow_import")):
+    for root in dict.fromkeys((ra.key, fi.key)):
         if not prog.has_func(root):
             res.unclass(f"{root} vanished")
             continue
